@@ -1892,7 +1892,9 @@ impl TypeLayout {
             (BigInt, Int, ..) => BigInt,
             (BigInt, Float, ..) => Float,
             //======================
-            (x, Byte, ..) | (Byte, x, ..) => *x, // byte will always get overshadowed.
+            // byte will always get overshadowed (by another number).
+            (x @ (Int | BigInt | Float | Byte), Byte, ..)
+            | (Byte, x @ (Int | BigInt | Float | Byte), ..) => *x,
             //======================
             (Str(StrWrapper(Some(len1))), Str(StrWrapper(Some(len2))), Add) => {
                 Str(StrWrapper(Some(len1 + len2)))
